@@ -147,7 +147,8 @@ Inductive outcome :=
    resolve; 3 fewer arguments than parameters; 4 key outside nil/int/non-zero real/string;
    5 dangling reference (internal); 6 Return at the top level of main; 7 Abort inside a re-entrant
    native call; 8 comparison deeper than [eq_depth]; 9 empty variable name; 10 malformed program
-   (no main, bad import); 11 native outside the menu called with a wrong number of arguments *)
+   (no main, bad import); 11 native outside the menu called with a wrong number of arguments;
+   12 the key function of std.min/max/sorted(_by_key) changed the key set of the table *)
 Inductive res :=
 | RFuel
 | RUnspec (why : N)
@@ -844,6 +845,13 @@ Section Eval.
                 match rec (TkKeys keyfn tb []) s with
                 | ROk (ONorm keys) _ s1 =>
                     let h := st_heap s1 in
+                    (* a key function that changes the KEY SET of the table the library is going
+                       through leaves the domain: the language does not say what min / max /
+                       sorted mean then *)
+                    if negb (match nth_error h p with
+                             | Some tb1 => list_eqb tkey_eqb (map fst tb) (map fst tb1)
+                             | None => false
+                             end) then RUnspec 12 else
                     if str_eqb name n_sort then
                       let sorted := stable_sort (sort_lt h) (combine keys tb) in
                       let out := fold_left (fun acc kv => s_insert acc (fst (snd kv)) (snd (snd kv)))
